@@ -11,6 +11,7 @@ func vpC07Build(rev bool, group int) *core.BuildTarget {
 	t := core.NewBuildTarget(core.BuildLabel{PackageName: "p", Name: "t"})
 	t.Command = "c"
 	t.IsBinary = true
+	t.Test = &core.TestFields{}
 	steps := []func(){
 		func() { t.AddEntryPoint("e1", "x") },
 		func() { t.AddEntryPoint("e2", "y") },
@@ -28,10 +29,19 @@ func vpC07Build(rev bool, group int) *core.BuildTarget {
 		func() { t.AddOutput("y") },
 		func() { t.AddNamedDatum("d1", core.FileLabel{File: "da", Package: "p"}) },
 		func() { t.AddNamedDatum("d2", core.FileLabel{File: "db", Package: "p"}) },
+		// per-config commands, none of them for the active config ("opt"): the
+		// fallback choice must not depend on map order either
+		func() { t.AddCommand("dbg", "c1") },
+		func() { t.AddCommand("cover", "c2") },
+		func() { t.AddTestCommand("dbg", "t1") },
+		func() { t.AddTestCommand("cover", "t2") },
 	}
 	// each group populates four of the attributes with two entries (all of them
 	// together would multiply the map orders of eight attributes)
 	steps = steps[group*4 : group*4+4]
+	if group == 4 {
+		t.Command = ""
+	}
 	if rev {
 		for i := len(steps) - 1; i >= 0; i-- {
 			steps[i]()
@@ -54,7 +64,7 @@ func vpC07Build(rev bool, group int) *core.BuildTarget {
 
 func vpH_C07_order() {
 	state := vpC08State()
-	group := vpChoice("attribute-group", 4)
+	group := vpChoice("attribute-group", 5)
 	t1 := vpC07Build(false, group)
 	t2 := vpC07Build(vpNondetBool("reverse-insertion"), group)
 	runtime := vpNondetBool("runtime")
